@@ -31,24 +31,24 @@ def gen_point(G, rng):
     if u < 0.40:     # uniform in the slightly inflated bounding box
         return [rng.uniform(b[0] - 0.08 * w, b[2] + 0.08 * w), rng.uniform(b[1] - 0.08 * h, b[3] + 0.08 * h)], 'uniform'
     if u < 0.65:     # inside a random column (so that small columns get their share)
-        i = rng.randrange(G.n)
-        P = G.polyf[i]
+        i = G.pick(rng)
+        P = G.polyg[i]
         ws = [rng.random() + 0.05 for _ in P]
         s = sum(ws)
         return [sum(wk * p[0] for wk, p in zip(ws, P)) / s, sum(wk * p[1] for wk, p in zip(ws, P)) / s], 'in-column'
     if u < 0.80:     # level with a vertex: the ray of the crossing test passes through vertices
-        i = rng.randrange(G.n)
-        P = G.polyf[i]
+        i = G.pick(rng)
+        P = G.polyg[i]
         ws = [rng.random() + 0.05 for _ in P]
         s = sum(ws)
         x = sum(wk * p[0] for wk, p in zip(ws, P)) / s
         j = rng.choice(G.nbrs(i) + [G.cols[i]])
-        v = rng.choice(G.polyf[G.index[id(j)]])
+        v = rng.choice(G.polyg[G.index[id(j)]])
         if rng.random() < 0.3: x = b[0] - rng.uniform(0.01, 0.3) * w     # outside, to the left
         return [x, v[1]], 'level-with-vertex'
     if u < 0.90:     # close to (but not within tolerance of) an edge
-        i = rng.randrange(G.n)
-        P = G.polyf[i]
+        i = G.pick(rng)
+        P = G.polyg[i]
         k = rng.randrange(len(P))
         a, c = P[k], P[(k + 1) % len(P)]
         t = rng.uniform(0.02, 0.98)
@@ -76,14 +76,14 @@ def make_aids(G, rng, T):
     """The search-aid combinations tried for one point.  T: index of the containing column or None."""
     n = G.n
     cols = G.cols
-    right = T if T is not None else rng.randrange(n)
+    right = T if T is not None else G.pick(rng)
     nb = G.nbrs(right)       # in columnlist order (a set of objects iterates in address order: not reproducible)
-    nbr = G.index[id(rng.choice(nb))] if nb else rng.randrange(n)
-    far = rng.randrange(n)
+    nbr = G.index[id(rng.choice(nb))] if nb else G.pick(rng)
+    far = G.pick(rng)
 
     def subset():
         k = max(1, int(n * rng.choice([0.05, 0.2, 0.5])))
-        s = set(rng.sample(range(n), min(n, k)))
+        s = set(G.order[r] for r in rng.sample(range(n), min(n, k)))
         if T is not None: s.add(T)
         return sorted(s)
 
@@ -340,7 +340,8 @@ def band_task(args):
         out = new_out()
         cnt = out['counts']
         cands = []
-        for i, P in enumerate(G.polyf):
+        for i in G.order:
+            P = G.polyg[i]
             for k in range(len(P)):
                 a, b = P[k], P[(k + 1) % len(P)]
                 dy = b[1] - a[1]
@@ -493,8 +494,8 @@ def gen_line(G, rng):
         return [rng.uniform(b[0] - m * w, b[2] + m * w), rng.uniform(b[1] - m * h, b[3] + m * h)]
 
     def incol():
-        i = rng.randrange(G.n)
-        P = G.polyf[i]
+        i = G.pick(rng)
+        P = G.polyg[i]
         ws = [rng.random() + 0.05 for _ in P]
         s = sum(ws)
         return [sum(wk * p[0] for wk, p in zip(ws, P)) / s, sum(wk * p[1] for wk, p in zip(ws, P)) / s]
@@ -504,8 +505,8 @@ def gen_line(G, rng):
     if u < 0.75: return incol(), anywhere(0.3), 'inside-any'
     if u < 0.85: return anywhere(0.3), incol(), 'any-inside'
     if u < 0.93:      # short line inside one column or between neighbours
-        i = rng.randrange(G.n)
-        P = G.polyf[i]
+        i = G.pick(rng)
+        P = G.polyg[i]
 
         def pin():
             ws = [rng.random() + 0.05 for _ in P]; s = sum(ws)
@@ -739,14 +740,14 @@ def _prim_task(spec, repo, seed, n):
             cnt['discarded_too_close_to_edge'] += 1; continue
         npos = np.array(pos)
         # in_polygon against the candidate columns and a few random ones
-        cands = list(G.candidates(pos))[:4] + [rng.randrange(G.n)]
+        cands = sorted((int(i) for i in G.candidates(pos)), key=lambda i: G.rank[i])[:4] + [G.pick(rng)]
         for i in cands:
             c = G.cols[int(i)]
             lines.append('ip\t%s\t%s' % (ptstr(pos), ' '.join(ptstr(p) for p in c.polygon)))
             impl.append('1' if in_polygon(npos, c.polygon) else '0'); meta.append(('in_polygon', pos, c.name))
         # in_rectangle against bounding boxes and tree nodes (incl. points exactly on their borders)
         t = rng.choice(nodes)
-        c = G.cols[rng.randrange(G.n)]
+        c = G.cols[G.pick(rng)]
         for r in (t.bounds, c.bounding_box):
             p = list(pos)
             u = rng.random()
@@ -756,7 +757,7 @@ def _prim_task(spec, repo, seed, n):
             lines.append('ir\t%s\t%s' % (ptstr(p), rect_wire(r)))
             impl.append('1' if in_rectangle(np.array(p), r) else '0'); meta.append(('in_rectangle', p, [list(map(float, r[0])), list(map(float, r[1]))]))
         # rectangles_intersect: bounding box against a node (touching cases are common in rectangular meshes)
-        c2 = G.cols[rng.randrange(G.n)]
+        c2 = G.cols[G.pick(rng)]
         for a, b in ((c.bounding_box, t.bounds), (c.bounding_box, c2.bounding_box)):
             lines.append('ri\t%s\t%s' % (rect_wire(a), rect_wire(b)))
             impl.append('1' if rectangles_intersect(a, b) else '0'); meta.append(('rectangles_intersect', None, None))
